@@ -74,7 +74,7 @@ func better(a, b *Finding) bool {
 
 type spaceCount struct {
 	Generated, Executed, Reached, Nontrivial int
-	CPUms                          float64 // process CPU time while this space was enumerated
+	CPUms                                    float64 // process CPU time while this space was enumerated
 }
 
 // Result of one worker (or the merge of all).
